@@ -43,10 +43,10 @@ theorem invT_regState {s : St} {c name : Nat} {order : Int} {base l : List Nat} 
     · rw [regState_objs_n] at hr; simp at hr
   · show (!(obsOf s.tr).afterStop.contains c) = true
     rw [afterStop_nil_of_not_stopped h hst]; rfl
-  · show (obsOf s.tr).live.all (fun w => w.name != name || w.id == s.n) = true
+  · show (obsOf s.tr).live.all (fun w => w.name != name || w.id == s.n || !liveAtCall (obsOf s.tr) c w.id) = true
     simp only [List.all_eq_true, Bool.or_eq_true, bne_iff_ne, ne_eq, beq_iff_eq]
     intro w hw
-    left
+    left; left
     intro hwn
     obtain ⟨h1, h2, h3, _⟩ := h.liveSound w hw
     have hreg := hA.flagreg hcl w.id h1 (Or.inl h2)
